@@ -6,7 +6,9 @@
 //
 // Environment:
 //   C04_SKIP      comma separated exclusion tokens (regions already known to crash):
-//                   perm_ovf / lap_ovf   permanent / Laplace with int-overflowing binomials
+//                   perm_ovf / lap_ovf   permanent / Laplace whose binomial product exceeds 2^31
+//                                        (former F3 region; nothing is skipped unless a crash
+//                                        was recorded there in this campaign)
 //                   tor_d2 / ltor_d2     (loop) torontonian with >= 2 modes
 //                   k:<kernel>[:f32|:f64] a whole kernel (optionally one precision)
 //   C04_ONLY      comma separated kernel names to run (others are skipped, not counted)
@@ -285,7 +287,8 @@ extern "C" int LLVMFuzzerTestOneInput(const uint8_t *data, size_t size) {
         bool laplace = kernel == 1;
         int nr = fdp.ConsumeIntegralInRange<int>(0, 6), nc = fdp.ConsumeIntegralInRange<int>(0, 6);
         bool few = nr <= 3 && nc <= 3;
-        int cap_each = few ? 24 : 3, cap_total = few ? 40 : 8;
+        // few rows: any split of up to 40 photons (e.g. [36,2], [20,20]); many rows: up to 8
+        int cap_each = few ? 40 : 3, cap_total = few ? 40 : 8;
         std::vector<int> rows(nr), cols(nc, 0);
         int tot = 0;
         for (int i = 0; i < nr; i++) {
@@ -299,7 +302,7 @@ extern "C" int LLVMFuzzerTestOneInput(const uint8_t *data, size_t size) {
         if (nc > 0) {
             int acc = 0;
             for (int j = 0; j < nc; j++) {
-                int m = fdp.ConsumeIntegralInRange<int>(0, cap_each + 16);
+                int m = fdp.ConsumeIntegralInRange<int>(0, few ? 40 : 19);
                 m = std::min(m, want_cols - acc);
                 cols[j] = m;
                 acc += m;
